@@ -104,10 +104,13 @@ def run_k(prop, tag, files, specs, ctx, inst_text=""):
 
 
 # ---- subsets of the C12 / C13 harness files used by other properties
+CORE_WP = [(0, 0), (1, 7), (11, 3), (33, 0), (63, 1), (64, 1)]      # (63, 1): values reaching into a ninth byte
+
+
 def c12_core_inst(tier):
     from props import c12
     lines = []
-    for (w, p) in [(0, 0), (1, 7), (11, 3), (33, 0), (64, 1)]:
+    for (w, p) in CORE_WP:
         lines.append("#[kani::proof]\n#[kani::unwind(67)]\nfn c12_o3_rt_w%d_p%d() { rt_body::<%d, %d, 3>() }" % (w, p, w, p))
     return "\n".join(lines)
 
@@ -115,7 +118,7 @@ def c12_core_inst(tier):
 def c12_core_specs(tier):
     out = [KSpec("O01.1 integer_bits", C12M + "c12_o1_integer_bits_all", "all i64 min<=max", "bit width formula"),
            KSpec("O01.1 write contract", C12M + "c12_o2_write_contract_int", "all i64 min<=v<=max", "write() = add_bits(LE(v-min), bit_size)")]
-    for (w, p) in [(0, 0), (1, 7), (11, 3), (33, 0), (64, 1)]:
+    for (w, p) in CORE_WP:
         out.append(KSpec("O01.1 codec w%d p%d" % (w, p), C12M + "c12_o3_rt_w%d_p%d" % (w, p), "width %d phase %d, 3 values" % (w, p), "bytes == SPEC-bits, decode returns the values", timeout=900,
                          allow_unsat_covers=("N > 1 && u[1] == 0 && u[0] != 0", "u[0] as u128 == range") if w == 0 else ()))
     return out
@@ -123,7 +126,12 @@ def c12_core_specs(tier):
 
 def c12_o2_specs(tier):
     return [KSpec("O10.4 serialize for all i64", C12M + "c12_o2_write_contract_int", "all i64 min<=v<=max", "write never panics and emits LE(v-min mod 2^64)"),
-            KSpec("O10.4 type mismatch", C12M + "c12_o2_write_type_mismatch", "all 12 mismatching (type, value) kinds", "mismatching value kind => Err, nothing written")]
+            KSpec("O10.4 type mismatch", C12M + "c12_o2_write_type_mismatch", "all 12 mismatching (type, value) kinds", "mismatching value kind => Err, nothing written"),
+            KSpec("O10.4 integer_bits", C12M + "c12_o1_integer_bits_all", "all i64 min<=max", "the width the writer packs with is the SPEC width the reader expects (smallest b with max-min < 2^b)")]
+
+
+def c12_extract_specs(tier):
+    return [KSpec("O03.4 extract any width", C12M + "c12_o5_unpack_any_range", "all min<max (width symbolic), all 9 stream bytes", "extract(width) returns the SPEC-bits of the first two values", timeout=1200)]
 
 
 def c12_o5_specs(tier):
